@@ -149,7 +149,7 @@ CHECKS = {
             'Kernel-checked theorems over the model of discover_field_constraints for every well-typed column: type is '
             'the column type; min / max are attained by a record and extremal; min / max length attained and extremal '
             'in characters; sign is the strongest class all values share (none when mixed); max_nulls present iff the '
-            'null count is < 2 and equals it; no_duplicates iff string/int field with > 1 non-null values all distinct; '
+            'null count is < 2 and equals it; no_duplicates iff non-real field with > 1 non-null values all distinct; '
             'allowed_values iff 1..20 distinct strings and equals their sorted list; only the type for absent data. '
             'Tied to the code by running discover_df and the pandas aggregates, and discover_db_table on generated SQLite '
             'tables, against the model on generated columns of every family; statistics are also recomputed from the cells '
